@@ -12,9 +12,10 @@ from fractions import Fraction
 
 import numpy as np
 
-from . import core
+from . import core, pylite_tie
 from .core import Case, cD, cOD, cN, clist, cbool
 
+obligations = pylite_tie.trend_obligations   # source-regenerated tie (harness/pylite_tie.py)
 ID = "C03"
 PROPS_FILE = "Props/C03.v"
 IMPORTS = "From Verde Require Import Model.Trend Model.KernelCases."
